@@ -68,26 +68,35 @@ Fixpoint vsize (e : val) : nat :=
 
 (** what may follow a printed expression inside a list or at the end of the text *)
 Definition delim (rest : string) : Prop :=
-  match rest with EmptyString => True | String c _ => aZ c = 32 \/ aZ c = 41 end.
+  match rest with EmptyString => True | String c _ => is_ws c = true \/ aZ c = 41 end.
+
+Lemma delim_codes c : is_ws c = true \/ aZ c = 41 ->
+  aZ c = 32 \/ aZ c = 9 \/ aZ c = 12 \/ aZ c = 13 \/ aZ c = 10 \/ aZ c = 41.
+Proof.
+  unfold is_ws. intros [H|H]; [|tauto].
+  repeat match type of H with (_ || _) = true => apply orb_prop in H as [H|H] end; apply Z.eqb_eq in H; tauto.
+Qed.
 
 Lemma delim_number_end rest : delim rest -> number_end rest = true.
 Proof.
-  destruct rest as [|c r]; [reflexivity|]. cbn [delim number_end]. unfold is_hex, is_digit, aZ.
-  intros [H|H]; rewrite H; reflexivity.
+  destruct rest as [|c r]; [reflexivity|]. cbn [delim number_end]. intros H. apply delim_codes in H.
+  unfold is_hex, is_digit, aZ in *.
+  destruct H as [H|[H|[H|[H|[H|H]]]]]; rewrite H; reflexivity.
 Qed.
 
 Lemma delim_postfix f v rest : delim rest -> p_postfix (S f) v rest = ROk v rest.
 Proof.
   destruct rest as [|c r]; [reflexivity|]. cbn [delim p_postfix]. intros H.
+  apply delim_codes in H.
   destruct c as [b0 b1 b2 b3 b4 b5 b6 b7]. destruct b0, b1, b2, b3, b4, b5, b6, b7; try reflexivity;
-    exfalso; unfold aZ, ascii_Z in H; cbn in H; destruct H as [H|H]; discriminate H.
+    exfalso; unfold aZ, ascii_Z in H; cbn in H; destruct H as [H|[H|[H|[H|[H|H]]]]]; discriminate H.
 Qed.
 
 Lemma delim_not_at rest : delim rest -> match rest with String "@"%char _ => False | _ => True end.
 Proof.
-  destruct rest as [|c r]; [trivial|]. cbn [delim]. intros H.
+  destruct rest as [|c r]; [trivial|]. cbn [delim]. intros H. apply delim_codes in H.
   destruct c as [b0 b1 b2 b3 b4 b5 b6 b7]. destruct b0, b1, b2, b3, b4, b5, b6, b7; try exact I;
-    unfold aZ, ascii_Z in H; cbn in H; destruct H as [H|H]; discriminate H.
+    unfold aZ, ascii_Z in H; cbn in H; destruct H as [H|[H|[H|[H|[H|H]]]]]; discriminate H.
 Qed.
 
 (** a primary expression followed by a delimiter, read as an s-expression *)
@@ -140,17 +149,23 @@ Qed.
 Definition good_first (c : ascii) : Prop := is_ws c = false /\ (aZ c =? 59) = false /\ (aZ c =? 41) = false.
 
 (** symbols, booleans, operators *)
-Lemma delim_cases rest : delim rest -> rest = "" \/ (exists r, rest = String " "%char r) \/ (exists r, rest = String ")"%char r).
+Lemma delim_cases rest : delim rest ->
+  rest = "" \/ exists c r, rest = String c r /\
+    (c = " "%char \/ c = ascii_of_N 9 \/ c = ascii_of_N 12 \/ c = ascii_of_N 13 \/ c = ascii_of_N 10 \/ c = ")"%char).
 Proof.
-  destruct rest as [|c r]; [left; reflexivity|]. cbn [delim]. intros [H|H]; right.
-  - left. exists r. f_equal. apply (ascii_of_code c 32 H).
-  - right. exists r. f_equal. apply (ascii_of_code c 41 H).
+  destruct rest as [|c r]; [left; reflexivity|]. cbn [delim]. intros H. apply delim_codes in H. right. exists c, r. split; [reflexivity|].
+  destruct H as [H|[H|[H|[H|[H|H]]]]]; [left|right;left|right;right;left|right;right;right;left|right;right;right;right;left|right;right;right;right;right];
+    apply (ascii_of_code c _ H).
 Qed.
+
+Ltac delim_split Hd :=
+  let c := fresh "c" in let r := fresh "r" in let E := fresh "E" in
+  destruct (delim_cases _ Hd) as [->|(c & r & -> & [E|[E|[E|[E|[E|E]]]]])]; [|subst c..].
 
 Lemma span_sym_app t rest : sall is_sym_rest t = true -> delim rest -> span_sym (t ++ rest) = (t, rest).
 Proof.
   intros Ht Hd. induction t as [|c t IH].
-  - cbn [append]. destruct (delim_cases rest Hd) as [->|[[r ->]|[r ->]]]; reflexivity.
+  - cbn [append]. delim_split Hd; reflexivity.
   - cbn [sall] in Ht. apply andb_prop in Ht as [Hc Hr]. cbn [append span_sym]. rewrite Hc, (IH Hr). reflexivity.
 Qed.
 
@@ -172,10 +187,10 @@ Qed.
 
 Lemma primary_bool g (b : bool) rest : delim rest ->
   p_primary (S g) (((if b then "true" else "false") : string) ++ rest) = ROk (VBool b) rest.
-Proof. intros Hd. destruct (delim_cases rest Hd) as [->|[[r ->]|[r ->]]]; destruct b; reflexivity. Qed.
+Proof. intros Hd. delim_split Hd; destruct b; reflexivity. Qed.
 
 Lemma primary_op g o rest : delim rest -> p_primary (S g) (op_name o ++ rest) = ROk (VOp o) rest.
-Proof. intros Hd. destruct (delim_cases rest Hd) as [->|[[r ->]|[r ->]]]; destruct o; reflexivity. Qed.
+Proof. intros Hd. delim_split Hd; destruct o; reflexivity. Qed.
 
 Lemma op_first_good o : exists c t, op_name o = String c t /\ good_first c.
 Proof. destruct o; eexists _, _; (split; [reflexivity|repeat split]). Qed.
